@@ -109,7 +109,7 @@ func binTokens(c *Ctx, fn *ssa.Function, depth int, loop bool) []binTok {
 			}
 			items = append(items, item{call.Pos(), []binTok{{width: w, inLoop: il, label: lbl, pos: call.Pos()}}})
 			return
-		case "io.ReadFull":
+		case "io.ReadFull", "io.ReadAtLeast":
 			w := -1
 			if sl, ok := call.Call.Args[1].(*ssa.Slice); ok {
 				if pt, ok := sl.X.Type().Underlying().(*types.Pointer); ok {
